@@ -482,6 +482,7 @@ func failedStageLeakCase(col *Collector, variant int) {
 func runC08(col *Collector, tier string, seed int64) {
 	withEnvCase(col)
 	derivedVarsCases(col, "c08-leak")
+	derivedGenCases(col, rand.New(rand.NewSource(seed+1010)), map[bool]int{false: 40, true: 600}[tier == "thorough"], "c08-leak")
 	for v := 0; v < 3; v++ {
 		failedStageLeakCase(col, v)
 	}
